@@ -1059,9 +1059,11 @@ func (g *Gen) eventInfo(existing bool) *mproto.MigrateEventInfo {
 			ks = append(ks, k)
 		}
 		sort.Strings(ks)
-		e := d.MigrateEvents[pickS(g, ks)]
-		pb := meta.VerifMarshalEvent(e)
-		return pb
+		id := pickS(g, ks)
+		e := d.MigrateEvents[id]
+		return &mproto.MigrateEventInfo{EventId: proto.String(id), EventType: proto.Int32(int32(e.GetEventType())), OpId: proto.Uint64(e.GetOpId()),
+			Pti: e.GetPtInfo().Marshal(), CurrState: proto.Int32(int32(e.GetCurrentState())), PreState: proto.Int32(int32(e.GetPreState())),
+			Src: proto.Uint64(e.GetSrc()), Dest: proto.Uint64(e.GetDst()), AliveConnId: proto.Uint64(e.GetAliveConnId())}
 	}
 	db := g.pickDB()
 	pb, _ := g.ptInfo(db)
